@@ -1,0 +1,21 @@
+//! Verification hooks for the skill aggregation helpers. Only compiled with
+//! `--cfg rosu_pp_verif`. Wrappers only; no behaviour is added or changed.
+
+use crate::util::strains_vec::StrainsVec;
+
+/// [`difficulty_value`](crate::any::difficulty::skills::difficulty_value)
+/// on the given strain peaks.
+pub fn difficulty_value(peaks: &[f64], decay_weight: f64) -> f64 {
+    let mut vec = StrainsVec::with_capacity(peaks.len());
+
+    for &peak in peaks {
+        vec.push(peak);
+    }
+
+    crate::any::difficulty::skills::difficulty_value(vec, decay_weight)
+}
+
+/// [`count_top_weighted_strains`](crate::any::difficulty::skills::count_top_weighted_strains)
+pub fn count_top_weighted_strains(object_strains: &[f64], difficulty_value: f64) -> f64 {
+    crate::any::difficulty::skills::count_top_weighted_strains(object_strains, difficulty_value)
+}
